@@ -279,15 +279,10 @@ var documentedNeutral = map[string]string{
 	"C12-n6":  "a block was extracted into a helper of another package (the normalisation is per package)",
 	"C13-n6":  "a pre-sized slice filled by a counter over a map range (needs: a map range runs len(m) times)",
 	"C03-n8":  "`_, seen := m[k]` became `m[k]` on a map[string]bool that only stores true: equal by a data invariant, not by shape",
-	"C05-n8":  "the cache lookup was hoisted out of the else-if chain and three skip tests were merged: the per-edge rules of the backward scan no longer find their edges",
-	"C07-n8":  "index arithmetic moved into new helpers with index parameters: the bounds prover cannot relate the returned index to the slice",
+	"C07-n8":  "the audited `a[ai:]` became `s[i:]` in a helper that is inlined: its loop-carried index is defined in another shape, so the audit's canonical name does not match, and the invariant itself (increments inside a range loop over the slice) is beyond the prover",
 	"C07-n9":  "`rest := a[len(b):]; rest[0]`: needs len(rest) = len(a) - len(b), which is not a difference constraint",
-	"C16-n7":  "the completion tail moved into a helper with `defer mu.Unlock()`: helpers with defer are not inlined, the atomic-section rule is per function",
-	"C18-n7":  "the per-range evaluation became a helper returning boolean expressions: the verdict rules look for the if/else-if shape of the decision",
 	"C18-n9":  "Clone+SortFunc became slices.SortedFunc(slices.Values(…)): a library idiom the sort/search anchors do not know",
 	"C05-n14": "a nil test made redundant by an earlier successful type assertion was removed, so the traced package's URL is no longer a phi in a frozen row: equal by a value invariant, not by shape",
-	"C07-n13": "index arithmetic moved into a helper that returns an end index (as C07-n8); the run extracted by slicing also shows the deliberately one-sided `bs == \"\"` test to the symmetric-guards rule",
-	"C18-n14": "the per-range evaluation became a helper returning boolean expressions (as C18-n7)",
 	"C19-n15": "the three validation loops became three calls of a helper with a type parameter of its own: such helpers are not inlined",
 }
 
